@@ -265,6 +265,14 @@ def run(prop, report, tier, seed, replay=None):
                              scripts=[gen_script(rng, t) or [['print', f'P{t}-x']] for t in range(n)], order=order,
                              behs=[('raise' if rng.random() < 0.35 else 'ok') for _ in range(n)],
                              gap=rng.choice([0.0, 0.0, 0.02]), nhandlers=rng.choice([1, 2, 2, 3]), collect_pos=rng.randrange(3)))
+    if replay is None:
+        # a task that logs heavily (hundreds of records) and finishes in the last polling round: nothing may be left in
+        # the queue when run_tasks returns
+        for i, cfg in enumerate(cfgs):
+            if i % 4 == 1:
+                t = cfg['order'][-1]
+                cfg['scripts'][t] = [['info', f'H{t}-{k:04d}'] for k in range(rng.choice([150, 400, 900]))]
+                cfg['heavy'] = t
     for cfg in cfgs:
         msgs, late = run_real(cfg)
         want = expected_counts(cfg)
